@@ -16,14 +16,21 @@ def sh(cmd, cwd, timeout=900):
 def main():
     src, sid = sys.argv[1], sys.argv[2]
     nosuite = "--no-suite" in sys.argv
+    checks_only = "--checks-only" in sys.argv
     meta = json.load(open(os.path.join(src, "meta.json")))
     prop = meta["property"]
     demo_files = [f for f in os.listdir(src) if f not in ("patch.diff", "meta.json") and not f.endswith(".md")]
     wt = "/tmp/sv_" + sid
-    subprocess.run(["git", "-C", "/repo", "worktree", "remove", "--force", wt], capture_output=True)
-    subprocess.run(["git", "-C", "/repo", "worktree", "add", "-q", "--detach", wt, "HEAD"], check=True)
     res = {}
+    if checks_only:
+        old = json.load(open("/verif/seeded/" + sid + "/meta.json"))["verified_by_me"]
+        res = {k: old[k] for k in ("demo_passes_without_change", "compiles", "demo_fails_with_change", "suite_passes_with_change") if k in old}
+    else:
+        subprocess.run(["git", "-C", "/repo", "worktree", "remove", "--force", wt], capture_output=True)
+        subprocess.run(["git", "-C", "/repo", "worktree", "add", "-q", "--detach", wt, "HEAD"], check=True)
     try:
+        if checks_only:
+            raise StopIteration
         demo_cmd = meta["demo_cmd"]
         # where do the demo files go? default: repository root; meta may name a package dir
         dest = os.path.join(wt, meta.get("demo_dir", ""))
@@ -51,9 +58,12 @@ def main():
                 if rc != 0:
                     res["suite_tail"] = out[-1500:]
             res["suite_passes_with_change"] = ok
+    except StopIteration:
+        pass
     finally:
-        subprocess.run(["git", "-C", "/repo", "worktree", "remove", "--force", wt], capture_output=True)
-        subprocess.run(["go", "clean", "-testcache"], env=ENV, capture_output=True)
+        if not checks_only:
+            subprocess.run(["git", "-C", "/repo", "worktree", "remove", "--force", wt], capture_output=True)
+            subprocess.run(["go", "clean", "-testcache"], env=ENV, capture_output=True)
     # run the checks against the change in /repo
     fired = {}
     st = subprocess.run(["git", "-C", "/repo", "status", "--porcelain"], capture_output=True, text=True).stdout.strip()
